@@ -133,6 +133,39 @@ func runC07(c *Ctx) {
 			}
 		}
 	}
+	// SEVERAL results objects alive at once (one per claim, as a server validating a batch keeps them): each holds the
+	// issues of its own claim and nothing of the others', however few issues each has and in whatever order they fill
+	for _, ka := range kindNames {
+		for _, kb := range kindNames {
+			a, b, cc := g.clean(ka), g.clean(kb), g.clean(ka)
+			a.Claims().Expires = now - 1000
+			b.Claims().NotBefore = now + 1000
+			vrs := []*jwt.ValidationResults{jwt.CreateValidationResults(), jwt.CreateValidationResults(), jwt.CreateValidationResults(), jwt.CreateValidationResults()}
+			a.Validate(vrs[0])
+			b.Validate(vrs[1])
+			cc.Validate(vrs[2])
+			vrs[3].AddWarning("a warning of another run")
+			b.Validate(vrs[1])
+			vrs[3].AddError("an error of another run")
+			count := func(vr *jwt.ValidationResults) (n int) {
+				for _, is := range vr.Issues {
+					if is.TimeCheck {
+						n++
+					}
+				}
+				return
+			}
+			c.sum.Evaluations++
+			c.sum.ImplChecks++
+			got := []int{count(vrs[0]), count(vrs[1]), count(vrs[2]), count(vrs[3]), len(vrs[0].Issues), len(vrs[1].Issues), len(vrs[2].Issues), len(vrs[3].Issues)}
+			want := []int{1, 2, 0, 0, 1, 2, 0, 2}
+			if fmt.Sprint(got) != fmt.Sprint(want) || vrs[0].IsBlocking(false) || !vrs[0].IsBlocking(true) || vrs[2].IsBlocking(true) || !vrs[3].IsBlocking(false) {
+				c.violation("C07: results objects that are alive at the same time do not each hold their own claim's time-check issues",
+					map[string]interface{}{"first": ka, "second": kb, "time_issues_and_lengths": got, "expected": want})
+			}
+			c.count("several_results_objects")
+		}
+	}
 	// a results object that is already CROWDED - it holds many warnings (a long list of imports using a deprecated
 	// field was validated into it), or the claim itself raises many errors next to its time issues (130 exports of no
 	// kind): however many issues there are, the time-check issues are all there and IsBlocking(true) shows them
@@ -384,6 +417,20 @@ func runC10(c *Ctx) {
 					}
 					if err != nil {
 						panic(err)
+					}
+					// the same token as another implementation would write it: the kind spelled with a JSON escape
+					// (s\u0074ream is stream), signed over that text - it says what it said
+					if c.Rng.Intn(4) == 0 {
+						ch := splitTok(tok)
+						if pj, e := b64.DecodeString(ch[1]); e == nil {
+							pj2 := strings.NewReplacer(`"stream"`, `"s\u0074ream"`, `"service"`, `"s\u0065rvice"`).Replace(string(pj))
+							hj, _ := b64.DecodeString(ch[0])
+							ft := forge(string(hj), pj2, layout, kp)
+							if _, e := jwt.DecodeActivationClaims(tok); e == nil {
+								tok = ft.Token
+								c.count("activation_kind_spelled_with_an_escape")
+							}
+						}
 					}
 					how := ""
 					if !ok[0] {
